@@ -122,11 +122,12 @@ if INTERP:
 
 
 # ------------------------------------------------------------------ independent model evaluation (bridge)
-def corner_info(r, c, vr, vc, H, W, terr):
+def corner_info(r, c, vr, vc, H, W, terr, terrf):
     """The two extreme corners of cell (r,c) seen from the observer, found geometrically (not by the
     code's sector table): returns [(delta_angle, y, x, elevation_fraction)] for enter (most clockwise)
     and exit (most counter-clockwise); angles relative to the centre direction, counter-clockwise positive,
-    index space with row axis pointing down."""
+    index space with row axis pointing down.  A fifth element is the float64 corner elevation summed in the
+    order the code uses (only consulted to make sure an "exactly at eye level" claim also holds in floats)."""
     cx, cu = (c - vc), (vr - r)
     out = []
     for sy in (-0.5, 0.5):
@@ -137,23 +138,27 @@ def corner_info(r, c, vr, vc, H, W, terr):
             rr, cc = r + int(2 * sy), c + int(2 * sx)
             if 0 <= rr < H and 0 <= cc < W:
                 elev = Fraction(terr[r][c] + terr[rr][c] + terr[r][cc] + terr[rr][cc]) / 4
+                elevf = (terrf[rr][cc] + terrf[rr][c] + terrf[r][cc] + terrf[r][c]) / 4.0
             else:
                 elev = Fraction(terr[r][c])
-            out.append((delta, y, x, elev))
+                elevf = terrf[r][c]
+            out.append((delta, y, x, elev, elevf))
     en = min(out, key=lambda t: t[0])
     ex = max(out, key=lambda t: t[0])
     return en, ex
 
 
-def bridge(H, W, terr, vr, vc, vp_elev, target, ew, ns):
-    """blocks[n][c] in {0,1,2}; exp_angle[c]; for all cells (row-major ids); terr entries are Fractions."""
+def bridge(H, W, terr, terrf, vr, vc, vp_elev, vpf, target, ew, ns):
+    """blocks[n][c] in {0,1,2} for all cells (row-major ids); terr entries are the exact rational values of
+    the raster's float64 contents, terrf the floats; vp_elev / vpf the observer's eye height (exact / as the
+    float64 sum the code forms)."""
     ncell = H * W
     prof = {}
     for r in range(H):
         for c in range(W):
             if (r, c) == (vr, vc):
                 continue
-            en, ex = corner_info(r, c, vr, vc, H, W, terr)
+            en, ex = corner_info(r, c, vr, vc, H, W, terr, terrf)
 
             def grad(y, x, elev):
                 d = math.hypot((x - vc) * ew, (y - vr) * ns)
@@ -162,7 +167,10 @@ def bridge(H, W, terr, vr, vc, vp_elev, target, ew, ns):
             g1 = grad(r, c, terr[r][c])
             g2 = grad(ex[1], ex[2], ex[3])
             # which of the three profile points are exactly at eye level (rational arithmetic)
-            level = (en[3] == vp_elev, terr[r][c] == vp_elev, ex[3] == vp_elev)
+            # ... and in the float64 arithmetic of the code (both must agree before an exact tie is claimed)
+            level = (en[3] == vp_elev and en[4] - vpf == 0.0,
+                     terr[r][c] == vp_elev and terrf[r][c] - vpf == 0.0,
+                     ex[3] == vp_elev and ex[4] - vpf == 0.0)
             prof[(r, c)] = (en[0], ex[0], g0, g1, g2, level)
     blocks = [[0] * ncell for _ in range(ncell)]
     nborder = 0
@@ -172,7 +180,7 @@ def bridge(H, W, terr, vr, vc, vp_elev, target, ew, ns):
                 continue
             d = math.hypot((c - vc) * ew, (r - vr) * ns)
             own = math.atan(float(terr[r][c] + target - vp_elev) / d)
-            own_level = (terr[r][c] + target == vp_elev)
+            own_level = (terr[r][c] + target == vp_elev) and (terrf[r][c] + float(target)) - vpf == 0.0
             cx, cu = (c - vc), (vr - r)
             for (nr, nc), (a0, a2, g0, g1, g2, level) in prof.items():
                 if (nr, nc) == (r, c):
@@ -204,10 +212,8 @@ def bridge(H, W, terr, vr, vc, vp_elev, target, ew, ns):
 
 
 def to_frac(v):
-    f = Fraction(v).limit_denominator(4)
-    if abs(float(f) - float(v)) > 1e-12:
-        raise ValueError("terrain value %r is not a multiple of 1/4" % (v,))
-    return f
+    """exact rational value of a float64 / int"""
+    return Fraction(v)
 
 
 def int_or(v, bad=-999):
@@ -368,10 +374,14 @@ def encode_steps(steps, H, W, vr, vc, ew, ns):
 def run_los(j):
     H, W = j["H"], j["W"]
     vr, vc, ew, ns = j["vr"], j["vc"], j["ew"], j["ns"]
-    terr = [[to_frac(v) for v in row] for row in j["terrain"]]
-    data = np.array([[float(v) for v in row] for row in j["terrain"]], dtype=np.float64)
     dtype = j.get("dtype", "float64")
-    data = data.astype(dtype)
+    if dtype.startswith("int"):
+        data = np.array([[int(v) for v in row] for row in j["terrain"]], dtype=dtype)
+    else:
+        data = np.array([[float(v) for v in row] for row in j["terrain"]], dtype=np.float64).astype(dtype)
+    # the model is evaluated on the values the raster really holds (after the dtype conversion)
+    terrf = [[float(v) for v in row] for row in data.astype(np.float64)]
+    terr = [[to_frac(v) for v in row] for row in terrf]
     ras = xr.DataArray(data, dims=["y", "x"], coords={"y": np.array(j["ys"], dtype=float),
                                                       "x": np.array(j["xs"], dtype=float)})
     obs, tgt = j["obs"], j["tgt"]
@@ -393,25 +403,37 @@ def run_los(j):
     case["sew"], case["sns"] = (int_or(abs(a[4])), int_or(abs(a[5]))) if a else (-999, -999)
     case["order"] = order_case(_cap["rcts"], _cap["aes"]) if a else []
     vp_elev = terr[vr][vc] + to_frac(obs)
+    vpf = terrf[vr][vc] + float(obs)
     target = to_frac(tgt) if tgt > 0 else Fraction(0)
-    blocks, nborder = bridge(H, W, terr, vr, vc, vp_elev, target, ew, ns)
+    blocks, nborder = bridge(H, W, terr, terrf, vr, vc, vp_elev, vpf, target, ew, ns)
+    scale = max(1.0, max(abs(v) for row in terrf for v in row), abs(vpf))
     cells = []
     for r in range(H):
         row = []
         for c in range(W):
             v = float(out[r, c])
-            dh4 = int((terr[r][c] + target - vp_elev) * 4)
+            dh = terr[r][c] + target - vp_elev
+            dhf = (terrf[r][c] + float(target)) - vpf
+            # side of level: asserted only when exact and float64 arithmetic agree beyond rounding noise
+            if dh == 0 and dhf == 0.0:
+                dhs = 0
+            elif abs(float(dh)) > 1e-9 * scale and (dhf > 0) == (dh > 0) and dhf != 0.0:
+                dhs = 1 if dh > 0 else -1
+            else:
+                dhs = 2
+            dh4ok = 1 if (dh * 4).denominator == 1 and abs(dh * 4) < 30000 else 0
+            dh4 = int(dh * 4) if dh4ok else 0
             if (r, c) == (vr, vc):
                 exp = 180.0
             else:
                 d = math.hypot((c - vc) * ew, (r - vr) * ns)
-                exp = 90.0 + math.degrees(math.atan(float(terr[r][c] + target - vp_elev) / d))
+                exp = 90.0 + math.degrees(math.atan(float(dh) / d))
             inrange = (not math.isnan(v)) and 0.0 <= v <= 180.0
             row.append({"neg1": 1 if v == -1.0 else 0, "is180": 1 if v == 180.0 else 0,
                         "inrange": 1 if inrange else 0,
                         "angok": 1 if (inrange and abs(v - exp) <= 1e-3) else 0,
                         "mdeg": int(round(v * 1000)) if inrange else -1,
-                        "dh4": dh4})
+                        "dhs": dhs, "dh4ok": dh4ok, "dh4": dh4})
         cells.append(row)
     case["cells"] = cells
     case["blocks"] = blocks
